@@ -716,7 +716,7 @@ func (iv *Inv) classifyCall(s *Site) (class, what string) {
 		return "storeset", n
 	}
 	switch {
-	case hasSuffixAny(n, "math.Int.Int64", "math.Int.Uint64", "types.Int.Int64"):
+	case hasSuffixAny(n, "math.Int.Int64", "math.Int.Uint64", "types.Int.Int64", "types.Dec.TruncateInt64", "types.Dec.RoundInt64"):
 		return "int64", n
 	case hasSuffixAny(n, "types.Dec.Quo", "types.Dec.QuoInt", "types.Dec.QuoInt64", "types.Dec.QuoTruncate", "types.Dec.QuoRoundUp", "types.Dec.QuoMut",
 		"math.Int.Quo", "math.Int.QuoRaw", "math.Int.Mod", "math.Int.ModRaw", "types.DecCoins.QuoDec", "types.DecCoins.QuoDecTruncate", "types.Coins.QuoInt"):
